@@ -5,13 +5,58 @@ import os
 
 VERIF = os.path.dirname(os.path.dirname(os.path.abspath(__file__)))
 
+def C(technique, text, note, ref, category="exploration"):
+    return dict(technique=technique, text=text, note=note, ref=ref, category=category)
+
+
+PROBE = "in-process probe (Rust binary linking /repo as a library, JSON lines)"
 CHECKS = {
-    "C16": dict(
-        technique="runtime monitor: in-process probe of Sanitizer::sanitize vs. contract model, exhaustive short strings x all settings + random Unicode",
-        text="Every (setting, input) pair of an exhaustive short-string universe and a random Unicode sample is executed on the real "
-             "library and judged by an independent model of the contract; held-on-all-observed, not a proof.",
-        note="Trusts the probe's 10-line dispatch and the Python contract model; inputs longer than 6 symbols only sampled.",
-        ref="DESIGN.md §4 C16"),
+    "C01": C("runtime monitor on the real binary's stdout: independent SemVer / normalised-PEP 440 recognisers + zerv's own check and re-render, over generated sources, schemas, hostile Unicode values and flags",
+             "Every emitted string of thousands of generated runs (sources none / stdin / git, presets and random RON schemas, Unicode text, override and bump flags) is parsed by recognisers written from the two specs and fed back to zerv check/render; held-on-observed.",
+             "Trusts the reference recognisers (self-tested, PEP 440 one cross-checked against `packaging` when importable). Runs zerv refuses are outside the property and only counted.", "DESIGN.md §4 C01"),
+    "C02": C("runtime monitor with reference model: random git histories built with native git, shadow commit-DAG model as oracle, observed through probe (VcsData) and binary (--output-format zerv)",
+             "After roughly every second step of random histories (merges, random committer/author/tagger dates, tags on unreachable / already tagged commits, 7 dirt kinds, detached HEAD, 3 input formats) the reported tag, distance, dirtiness, branch, hashes and times are compared with the model. The pinned suite never runs git.rs at all.",
+             "Trusts native git 2.39 to execute the generator's operations; ties accept every admissible candidate; histories up to 40 operations.", "DESIGN.md §4 C02"),
+    "C03": C("runtime monitor: independent SemVer-precedence and true-PEP 440 comparators applied to `zerv flow` output strings over generated states and along real git histories",
+             "Bounds X.Y.Z < V < X.Y.(Z+1), exactness when clean, strict growth with distance and stability of clean pre-release tags are checked on zerv's printed strings with comparators that share no code with zerv; real repositories cover forks before the tag, second-parent tags and merges.",
+             "Two presets without pre-release part are judged with <= on the public version (documented behaviour).", "DESIGN.md §4 C03"),
+    "C04": C("runtime monitor with reference model: flow law (rule lookup, number source, patch/post/dev rules) vs. `flow --output-format zerv` under a pinned clock; branch hash learned and cross-checked across processes",
+             "Thousands of (tag, branch, distance, dirty, --post, label/num, post-mode, hash length, rule set) combinations on sources none and stdin are executed on the real pipeline and compared field by field with the law applied to zerv's own no-flow state.",
+             "Hash value is learned, not pinned; names ending in '/' and numeric segments above u32 are report-only.", "DESIGN.md §4 C04"),
+    "C05": C("runtime monitor with reference model: precedence/bump law vs. `version --output-format zerv`, flag-order metamorphic runs, model-free higher-level invariant",
+             "Random flag subsets (by-name and index-addressed, valid and invalid) over tag and stdin starts; each executed in three flag orders; result compared with the eleven-level law, refusals must be refusals.",
+             "Start state is what zerv prints for the same command line without component flags; three CLI-help assumptions listed in DESIGN.", "DESIGN.md §4 C05"),
+    "C06": C("runtime monitor with reference model: reference renderer (rules of the statement) vs. SemVer::from(Zerv) / PEP440::from(Zerv) on random valid schemas and variable assignments; tier function with metamorphic partner",
+             "Tens of thousands of random (schema, vars) objects rendered by the real library and compared character for character with the reference renderer; tier choice of smart presets checked incl. independence from all other variables.",
+             "Numbers beyond the target format's integer range are out of the property's domain (counted).", "DESIGN.md §4 C06"),
+    "C07": C("runtime monitor: string-level expectations for `zerv render` conversions (canonical shapes, PEP 440 spellings, fixed points, out-of-range numbers) on the real run_render, mirrored on the binary",
+             "Expected strings are assembled from generated fields, never from zerv's parsers; equality of round trips is judged by the reference PEP 440 key.", "Refusing an arbitrary non-canonical SemVer is not counted.", "DESIGN.md §4 C07"),
+    "C08": C("runtime monitor: exhaustive short strings + grammar-directed mutation against a hand-written SemVer 2.0.0 recogniser; check sub-command verdict in-process and on the binary",
+             "All strings up to length 5/6 over an 11-symbol alphabet incl. non-ASCII digits/letters, suffix enumeration after grammar-relevant prefixes, mutated long versions and u64 edges: acceptance, lossless printing and `zerv check` verdict.",
+             "Oracle is a transcription of the semver.org BNF.", "DESIGN.md §4 C08"),
+    "C09": C("runtime monitor: exhaustive short strings + structured spellings against the Appendix-B recogniser and an own normaliser (cross-checked with `packaging`); idempotence, equality, check verdict and text",
+             "Acceptance, normal form, idempotence, equality of normal form and original, and the check report for ~0.8 M (quick) strings.", "Strings with surrounding whitespace are outside the statement.", "DESIGN.md §4 C09"),
+    "C10": C("runtime monitor: all-pairs comparison matrices of the real Ord/PartialOrd/== on parsed SemVer values against the reference precedence key; max-tag selection with permutations",
+             "Agreement with a reference total order on every ordered pair of a set implies antisymmetry, transitivity and totality on it; tens of millions of pairs per run.", "Small universe exhaustive in the thorough tier.", "DESIGN.md §4 C10"),
+    "C11": C("runtime monitor: all-pairs matrices over several spellings of each PEP 440 version against the key stated in the property",
+             "Every pair of a few thousand spelled versions is compared by the real implementation; all spellings of one version must be Equal and order identically.", "Oracle is the statement's key, not real PEP 440.", "DESIGN.md §4 C11"),
+    "C12": C("runtime monitor: emit -> independent RON reader -> re-emit byte comparison; piped vs direct rendering under a pinned clock; structural and textual RON mutants must be refused or denote the same object",
+             "Emitted objects from all sources must re-emit identically, preserve every field as read by an independent reader, satisfy the placement rules and render the same when piped; ~2 k mutants per quick run test refusal.",
+             "zv.ron reads the subset zerv emits; mutants it cannot read are counted, not judged (except trailing garbage).", "DESIGN.md §4 C12"),
+    "C13": C("fault injection + argv fuzzing on the real binary: PATH git shim fails every git invocation in turn in 9 modes; flag tables scraped from --help; exit/stdout/stderr oracle incl. -v and RUST_LOG=trace",
+             "Every git call zerv makes (k = 1..n) is failed in each mode on several repositories and commands; ~5 k adversarial argument vectors; panics, stdout-on-failure, silent failures and log lines on stdout are the refuting events.",
+             "Watchdog timeouts are counted, never judged.", "DESIGN.md §4 C13", category="fault_enumeration"),
+    "C14": C("runtime monitor across environments: same input executed as separate processes under varied TZ, locale, cwd, -C form, HOME, junk variables and two pinned wall clocks (LD_PRELOAD clock shim with read log)",
+             "Output must be identical across environments; across clocks only the documented dev timestamp may differ; date-derived output is compared with the UTC calendar.", "GIT_* variables are inputs and not varied.", "DESIGN.md §4 C14"),
+    "C15": C("runtime monitor: one template printing every documented variable and generated function calls, rendered by the real Tera setup, compared with direct renderings, the object and the function contracts, under several TZ values",
+             "String identities from the statement (semver/pep440 equality, recomposition, docker form, scalars) and function contracts incl. sanitize = C16 model and format_timestamp = UTC calendar.", "hash values learned, only length/alphabet contracts fixed.", "DESIGN.md §4 C15"),
+    "C16": C("runtime monitor: in-process probe of Sanitizer::sanitize vs. contract model, exhaustive short strings x all 96 settings + random Unicode + idempotence re-run",
+             "Every (setting, input) pair of an exhaustive short-string universe and a random Unicode sample is executed on the real library and judged by an independent model of the contract.",
+             "Two admissible truncation windows (DESIGN); separator=None asserts only length/idempotence/no panic.", "DESIGN.md §4 C16"),
+    "C17": C("runtime monitor: resolve_timestamp on every day 1970-2199 (first/last second) x 16 patterns against an own civil calendar, shards under non-UTC TZ; calver presets and ts() components through the binary",
+             "The pinned suite only ever runs in UTC on a handful of instants; this runs the real code on every calendar day under +14h / -11h zones.", "CLI values compared as integers.", "DESIGN.md §4 C17"),
+    "C18": C("runtime monitor on the real Python package: argv captured from subprocess.run, option tables scraped from the binary's --help, return value vs. independently assembled command line",
+             "Finite space: every keyword singly with value / None / False, plus random subsets and failing commands.", "Keyword-to-option naming convention stated in DESIGN.", "DESIGN.md §4 C18"),
 }
 
 PENDING_REASON = "check not implemented yet in this revision (planned, see DESIGN.md §4)"
